@@ -2,7 +2,7 @@
 import ast
 
 from .model import AnalysisError, ClassInfo, FuncInfo, BUILTIN_EXC, NotConst, fold_binop
-from .terms import SELF, FAC, TRANSPORT, NONE, Cond, const, is_const, mentions, show
+from .terms import SELF, FAC, TRANSPORT, NONE, Cond, const, is_const, mentions, show, subterms
 from .interp import BUILTINS_PURE, BUILTIN_CONSTS, PDU_MODULE
 
 CMP = {ast.Eq: "==", ast.NotEq: "!=", ast.Lt: "<", ast.LtE: "<=", ast.Gt: ">", ast.GtE: ">=",
@@ -629,6 +629,9 @@ class ExprMixin:
                 return const(fold_binop(getattr(ast, opname)(), a[1], b[1]))
             except Exception:
                 pass
+        if opname == "Add" and isinstance(a, tuple) and isinstance(b, tuple) and a[:1] == b[:1] and a[:1] in (("tuple",), ("list",)) \
+                and len(a) == 2 and len(b) == 2:
+            return (a[0], tuple(a[1]) + tuple(b[1]))       # two displays of known length joined
         return ("binop", opname, a, b)
 
     def e_BinOp(self, n, st, fx):
@@ -877,6 +880,9 @@ class ExprMixin:
                 consumer = c.func.id
             elif isinstance(c, ast.Call) and any(a is n for a in c.args) and isinstance(c.func, ast.Attribute):
                 consumer = "." + c.func.attr
+        materialised = consumer is None and isinstance(n, (ast.ListComp, ast.SetComp))
+        if materialised:
+            consumer = "list" if isinstance(n, ast.ListComp) else "set"       # the comprehension builds the collection itself
         seen_iters, seen_ifs = [], []
 
         def gens(i, s):
@@ -916,7 +922,14 @@ class ExprMixin:
             if r == "raise":
                 yield r, ts, s
             else:
-                yield "ok", ("comp", type(n).__name__, tuple(ts)), s
+                term = ("comp", type(n).__name__, tuple(ts))
+                if materialised and any(isinstance(sub, tuple) and sub[:1] in (("reg",), ("regtop",)) for it in seen_iters for sub in subterms(it)):
+                    # a local collection drawn from a registry ([r.msgId for r in queue]): like set(<genexp>), its identity links what
+                    # went in with the membership tests made on it later
+                    acc = ("accum", consumer, s.uid())
+                    self.emit(s, fx, "ACCUM", n, acc=acc, how="init", src=term)
+                    term = acc
+                yield "ok", term, s
 
     def e_ListComp(self, n, st, fx):
         yield from self._comprehension(n, [n.elt], st, fx)
